@@ -1,6 +1,6 @@
 """C12 — external functions are called as bound: right arguments, order and timing."""
-import json, re
-import vlib, engine
+import collections, copy, json, random, re
+import vlib, engine, gen_ink
 from props import hist
 
 LEVEL = "proof"
@@ -20,6 +20,15 @@ ASSUMPTIONS = [
     "that delivers the call's own line) and line by line with the ink-fallback run, a call inside a string must be "
     "refused with an error on the continue of its own line after all earlier lines were delivered unchanged; a "
     "panic anywhere is a violation",
+    "oracle on the implementation (where the call stands): stories with an external that has no binding and no ink "
+    "fallback at a random place of the content tree — ink programs built from weave wrappers (opening labelled / bare "
+    "gather, labelled and plain choices and gathers, nested weaves, loop idiom) in the root, a knot, a stitch, a "
+    "function, a tunnel or a thread; tools/gen_ink.py programs with the call inserted into a random block of the AST; "
+    "story JSON written directly (chains of containers embedded as unnamed, NAMED or named-only content) — x host "
+    "set-up {nothing, fallbacks on, on then off, other externals bound, bound then unbound, only some bound, all "
+    "bound} x entry {cont, continue_maximally, continue_async, sliced}: the first continue fails iff the compiled "
+    "story contains an external call whose name is neither bound nor (fallbacks on) a root-level container; these "
+    "cases are part of the engine correspondence sample (the model's validate_external_bindings walks the whole tree)",
 ]
 
 # ---------------------------------------------------------------------------------------------
@@ -324,6 +333,498 @@ def check_safe(m, case, fb_blocks, blocks, lines, fails):
                           case=case, calls=[list(e) for e in bad]))
 
 
+# =============================================================================================
+# WHERE the call stands.  Three families of stories in which an external WITHOUT an ink fallback
+# stands at a random place of the content tree (mostly out of reach of the first line):
+#   tmpl  : ink programs built from weave wrappers (see site()) inside a host (root, knot, stitch,
+#           function, tunnel, thread)
+#   ast   : tools/gen_ink.py programs with the call inserted as a statement into a random block of
+#           the AST (knots, stitches, choice bodies, conditional / switch / sequence blocks,
+#           functions, tunnels, threads) and, at random, weaves made to open with a labelled gather
+#   tree  : story JSON written directly: a chain of containers, each level embedded as unnamed
+#           content, as NAMED content ("#n") or as named-only content of its parent
+# =============================================================================================
+FAR = {   # external without ink fallback: declaration, call with argument seed k, logged arity
+    "far": ("EXTERNAL far(a)", lambda k: f"far({k})", 1),
+    "far0": ("EXTERNAL far0()", lambda k: "far0()", 0),
+    "far2": ("EXTERNAL far2(a, b)", lambda k: f"far2({k}, {k + 1})", 2),
+}
+FAR_W = [("far", 5), ("far0", 2), ("far2", 2)]
+
+
+class Place:
+    def __init__(self, rng):
+        self.rng, self.n, self.used, self.forms = rng, 0, [], []
+
+    def fresh(self):
+        self.n += 1
+        return self.n
+
+    def call(self):
+        name = wchoice(self.rng, FAR_W)
+        if name not in self.used:
+            self.used.append(name)
+        k = self.fresh()
+        src = FAR[name][1](k)
+        if self.rng.random() < 0.12 and name == "far":
+            src = f"far({src})"
+        return src, k
+
+    def leaf(self, level, fin, simple=False):
+        """the lines that make the call (weave level `level`), ending the flow with `fin`"""
+        c, k = self.call()
+        star = " ".join("*" * level)
+        forms = [("stmt", 3), ("assign", 2), ("inline", 3), ("cond", 1.5), ("temp", 1), ("seq", 1), ("block", 1.5),
+                 ("switch", 0.7)]
+        if not simple:
+            forms += [("choice-cond", 1.2), ("choice-text", 1.0)]
+        f = wchoice(self.rng, forms)
+        self.forms.append("leaf:" + f)
+        body = {
+            "stmt": [f"~ {c}", f"Done{k}."],
+            "assign": [f"~ v = {c}", f"Got{k} {{v}}."],
+            "inline": [f"Inl{k} {{{c}}}."],
+            "cond": [f"Cnd{k} {{{c} > 0: yes|no}}."],
+            "temp": [f"~ temp t{k} = {c}", f"Tmp{k} {{t{k}}}."],
+            "seq": [f"Sq{k} {{&{{{c}}}|b}}."],
+            "block": ["{ v == 0:", f"  ~ v = {c}", f"  Blk{k}.", "}"],
+            "switch": ["{ v:", "- 0:", f"    Sw{k} {{{c}}}.", "- else:", f"    Other{k}.", "}"],
+            "choice-cond": [f"{star} {{{c} > 0}} [cc{k}] Cc{k}."],
+            "choice-text": [f"{star} [ct{k} {{{c}}}] Ct{k}."],
+        }[f]
+        return body + [fin]
+
+    def site(self, level, depth, fin):
+        """a weave at `level` that contains the call somewhere: random wrappers around leaf()"""
+        r = self.rng
+        star, dash = " ".join("*" * level), " ".join("-" * level)
+        if depth <= 0 or level > 3:
+            return self.leaf(min(level, 3), fin)
+        forms = [("leaf", 2), ("open-label", 3.5), ("open-bare", 1), ("choice", 2), ("label-choice", 1.5),
+                 ("gather", 1.5), ("label-gather", 2), ("nest", 1.5), ("loop", 1.5)]
+        if level >= 3:
+            forms = [(f, w) for f, w in forms if f not in ("choice", "label-choice", "nest")]
+        f = wchoice(r, forms)
+        n = self.fresh()
+        self.forms.append(f)
+        if f == "leaf":
+            return self.leaf(level, fin)
+        if f == "open-label":          # the weave OPENS with a labelled gather (named container in content)
+            return [f"{dash} (L{n})", f"Lab{n}."] + self.site(level, depth - 1, fin)
+        if f == "open-bare":
+            return [f"{dash} Bare{n}."] + self.site(level, depth - 1, fin)
+        if f in ("choice", "label-choice"):
+            lab = f" (C{n})" if f == "label-choice" else ""
+            return ([f"{star}{lab} [opt{n}] Opt{n}."] + self.site(level + 1, depth - 1, fin)
+                    + [f"{star} [alt{n}] Alt{n}.", fin])
+        if f in ("gather", "label-gather"):
+            g = f"{dash} (G{n})" if f == "label-gather" else f"{dash} Gath{n}."
+            return [f"{star} [opt{n}] Opt{n}.", f"{star} [alt{n}] Alt{n}.", g] + self.site(level, depth - 1, fin)
+        if f == "nest":                # nested weave with its own (labelled or plain) gather
+            star2, dash2 = " ".join("*" * (level + 1)), " ".join("-" * (level + 1))
+            g = f"{dash2} (N{n})" if r.random() < 0.6 else f"{dash2} Ng{n}."
+            return ([f"{star} [opt{n}] Opt{n}.", f"{star2} [in{n}] In{n}.", f"{star2} [jn{n}] Jn{n}.", g]
+                    + self.site(level + 1, depth - 1, fin) + [f"{star} [alt{n}] Alt{n}.", fin])
+        # loop idiom: labelled opening gather, a branch that calls and comes back, a branch that leaves
+        c, k = self.call()
+        self.forms.append("leaf:loop")
+        return [f"{dash} (T{n})", f"Top{n}.", f"{star} [again{n}]", f"  ~ {c}", f"  Moving{k}.", f"  -> T{n}",
+                f"{star} [stop{n}] Bye{n}.", fin]
+
+    def func_body(self):
+        c, k = self.call()
+        f = wchoice(self.rng, [("ret", 3), ("assign", 2), ("cond", 2), ("text", 1), ("stmt", 1)])
+        self.forms.append("fn:" + f)
+        return {
+            "ret": [f"~ return {c}"],
+            "assign": [f"~ v = {c}", "~ return v"],
+            "cond": ["{ a > 0:", f"  ~ return {c}", "}", "~ return 0"],
+            "text": [f"Fn{k} {{{c}}}.", "~ return 1"],
+            "stmt": [f"~ {c}", "~ return 2"],
+        }[f]
+
+
+def gen_placement(rng):
+    """-> (source, info).  One or two calls of externals that have NO ink fallback, each at a random place of the
+    tree; `ext` (declared with an ink fallback) is called on the first line of some programs."""
+    p = Place(rng)
+    r = rng
+    hosts = []
+    nsites = 2 if r.random() < 0.3 else 1
+    knots, branch_lines = [], []
+    gated = r.random() < 0.88
+    root_in_branch = gated and r.random() < 0.6
+    root_site = None
+    for s in range(nsites):
+        host = wchoice(r, [("root", 3), ("knot", 3), ("stitch", 2), ("function", 1.5), ("tunnel", 1.5), ("thread", 1.5)])
+        if host == "root" and root_site is not None:
+            host = "knot"
+        hosts.append(host)
+        n = p.fresh()
+        depth = r.randint(0, 3)
+        if host == "root":
+            root_site = p.site(2 if root_in_branch else 1, depth, "-> END")
+        elif host == "knot":
+            knots += [f"=== kn{n} ==="] + p.site(1, depth, "-> END")
+            branch_lines.append(f"-> kn{n}")
+        elif host == "stitch":
+            first = r.random() < 0.5      # the flow of the knot starts in its first stitch, or the knot has a body
+            knots += [f"=== kn{n} ==="] + ([] if first else [f"Knot{n}.", f"-> st{n}"]) + [f"= st{n}"] \
+                + p.site(1, depth, "-> END")
+            branch_lines.append(f"-> kn{n}" if first or r.random() < 0.5 else f"-> kn{n}.st{n}")
+        elif host == "function":
+            knots += [f"=== function fn{n}(a) ==="] + p.func_body()
+            branch_lines.append(f"Val{n} {{fn{n}({n})}}.")
+        elif host == "tunnel":
+            body = p.site(1, min(depth, 1), "->->") if r.random() < 0.5 else p.leaf(1, "->->", simple=True)
+            knots += [f"=== tn{n} ==="] + body
+            branch_lines.append(f"-> tn{n} ->")
+        else:
+            knots += [f"=== th{n} ===", f"Thr{n}."] + p.site(1, min(depth, 2), "-> END")
+            branch_lines.append(f"<- th{n}")
+    # a divert to a knot ends the branch: keep at most one and put it last
+    div = [l for l in branch_lines if re.match(r"-> kn\d+(\.st\d+)?$", l)]
+    branch_lines = [l for l in branch_lines if l not in div] + div[:1]
+    leaves = bool(div)
+    end = "-> DONE" if "thread" in hosts else "-> END"
+    first_ext = r.random() < 0.3
+    lines = ["VAR v = 0"]
+    if r.random() < 0.35:
+        lines.append("- (top)")          # the ROOT weave opens with a labelled gather
+        p.forms.append("root-open-label")
+    lines.append("Start {ext(1)}." if first_ext else "Start.")
+    if gated:
+        lines.append("* [go] Went.")
+        lines += ["  " + l for l in branch_lines]
+        after = root_site is not None and not root_in_branch
+        if root_site is not None and root_in_branch and not leaves:
+            lines += ["  " + l for l in root_site]
+        elif not leaves:
+            lines.append("  Fall." if after else "  " + end)
+        lines.append("* [stay] Stay.")
+        lines.append("  Fall too." if after else "  -> END")
+        if after:
+            lines.append("- (after)" if r.random() < 0.5 else "- After.")
+            lines += root_site
+    else:
+        lines += branch_lines
+        if not leaves:
+            lines += root_site if root_site is not None else [end]
+        elif root_site is not None:
+            lines = lines[:-1] + root_site      # the root site instead of the divert
+    text = "\n".join(lines + knots)
+    p.used = [nm for nm in p.used if nm + "(" in text]
+    decl = [FAR[nm][0] for nm in p.used] + ["EXTERNAL ext(a)"]
+    src = "\n".join(decl + lines + knots + ["=== function ext(a) ===", "~ return a"]) + "\n"
+    return src, dict(kind="tmpl", hosts=hosts, gated=gated, forms=p.forms, far=list(p.used), first_ext=first_ext)
+
+
+# ------------------------------------------------------------------ gen_ink programs + insertion
+def _blocks(b, out, level=1, where="body"):
+    out.append((b, level, where))
+    for s in b:
+        k = s[0]
+        if k == "if":
+            for _, blk in s[1]:
+                _blocks(blk, out, level, "if")
+            if s[2] is not None:
+                _blocks(s[2], out, level, "if")
+        elif k == "switch":
+            for _, blk in s[2]:
+                _blocks(blk, out, level, "switch")
+            if s[3] is not None:
+                _blocks(s[3], out, level, "switch")
+        elif k == "seqblock":
+            for blk in s[3]:
+                _blocks(blk, out, level, "seqblock")
+        elif k == "choices":
+            for c in s[1]:
+                _blocks(c["body"], out, level + 1, "choice")
+
+
+def gen_inserted(rng):
+    """a tools/gen_ink.py program with `~ far(k)` inserted into 1..2 random blocks of its AST and, at random, the
+    enclosing knot / stitch / choice body made to open with a labelled gather"""
+    src0, ast = gen_ink.gen_program(rng)
+    ast = copy.deepcopy(ast)
+    cands = []
+    tops = [("top", ast["top"])]
+    for k in ast["knots"]:
+        tops.append(("function" if k["function"] else "knot:" + k["name"], k["body"]))
+        for s in k["stitches"]:
+            tops.append(("stitch", s["body"]))
+    for host, b in tops:
+        out = []
+        _blocks(b, out)
+        cands += [(host, blk, level, where) for blk, level, where in out]
+    info = dict(kind="ast", hosts=[], forms=[], far=["far"])
+    for i in range(rng.randint(1, 2)):
+        host, blk, level, where = rng.choice(cands)
+        # never after a `return` / behind the last statement of a function (keeps the function well-formed)
+        hi = len(blk)
+        if host == "function" or (blk and blk[-1][0] in ("return",)):
+            hi = max(0, len(blk) - 1)
+        pos = rng.randint(0, hi)
+        # not between a bare gather and the line printed on it
+        while pos > 0 and blk[pos - 1][0] == "gather" and blk[pos - 1][1] is None:
+            pos -= 1
+        blk.insert(pos, ["eval", ["call", "far", [["i", 100 + i]]]])
+        info["hosts"].append(host.split(":")[0])
+        info["forms"].append(where)
+        if where in ("body", "choice") and host != "function" and rng.random() < 0.5 \
+                and not any(s[0] == "gather" for s in blk[:1]):
+            # the weave opens with a labelled gather
+            blk.insert(0, ["gather", f"opn{i}"])
+            info["forms"].append("open-label")
+    src = "EXTERNAL far(a)\n" + gen_ink.print_program(ast)
+    return src, info
+
+
+# ------------------------------------------------------------------ story JSON written directly
+def gen_tree(rng):
+    """-> (story json text, info).  1..3 external calls, each at the bottom of a chain of containers whose every
+    level is embedded as unnamed content / named content ("#n") / named-only content of the level above; the chain
+    hangs in the main container behind `done`, in a knot, or in the root's own content.  Nothing of it is reachable
+    from the first line.  `ext` has a fallback (a root-level container of that name) in some stories."""
+    r = rng
+    cnt = [0]
+
+    def fresh():
+        cnt[0] += 1
+        return cnt[0]
+
+    def filler():
+        return r.choice([[], ["^x"], ["\n"], ["^y", "\n"], [["^z", None]]])
+
+    def chain(name):
+        k = fresh()
+        ar = {"far": 1, "far0": 0, "far2": 2, "ext": 1}[name]
+        node = ["ev"] + [k + j for j in range(ar)] + [{"x()": name, "exArgs": ar}, "pop", "/ev", None]
+        shape = []
+        for _ in range(r.randint(0, 4)):
+            kind = wchoice(r, [("content", 3), ("named-content", 4), ("named-only", 3)])
+            shape.append(kind)
+            flags = r.choice([None, None, 1, 3, 5, 7])
+            term = {}
+            if flags:
+                term["#f"] = flags
+            if kind == "content":
+                parent = filler() + [node] + filler()
+            elif kind == "named-content":
+                t = dict(node[-1] or {})
+                t["#n"] = f"n{fresh()}"
+                node = node[:-1] + [t]
+                parent = filler() + [node] + filler()
+            else:
+                term[f"o{fresh()}"] = node
+                parent = filler()
+            node = parent + [term or None]
+        return node, shape
+
+    names = [wchoice(r, [("far", 5), ("far0", 2), ("far2", 2), ("ext", 2)]) for _ in range(r.randint(1, 3))]
+    if all(n == "ext" for n in names):
+        names[0] = "far"
+    main = ["^Start.", "\n", "done"]
+    main_named, root_extra, root_named, shapes = {}, [], {}, []
+    for nm in names:
+        node, shape = chain(nm)
+        where = wchoice(r, [("main-content", 3), ("main-named-content", 2), ("main-named-only", 2), ("knot", 3),
+                            ("root-content", 1), ("root-named-content", 1)])
+        shapes.append([where] + shape)
+        if where == "main-content":
+            main.append(node)
+        elif where == "main-named-content":
+            t = dict(node[-1] or {}); t["#n"] = f"m{fresh()}"
+            main.append(node[:-1] + [t])
+        elif where == "main-named-only":
+            main_named[f"c-{fresh()}"] = node
+        elif where == "knot":
+            t = dict(node[-1] or {}); t.setdefault("#f", 1)
+            root_named[f"k{fresh()}"] = node[:-1] + [t]
+        elif where == "root-content":
+            root_extra.append(node)
+        else:
+            t = dict(node[-1] or {}); t["#n"] = f"r{fresh()}"
+            root_extra.append(node[:-1] + [t])
+    has_fallback = "ext" in names and r.random() < 0.7
+    if has_fallback:
+        root_named["ext"] = [{"temp=": "a"}, "ev", {"VAR?": "a"}, "/ev", "~ret", {"#f": 1}]
+    root = [main + [main_named or None], "done"] + root_extra + [root_named or None]
+    story = {"inkVersion": 21, "root": root, "listDefs": {}}
+    return json.dumps(story), dict(kind="tree", names=names, shapes=shapes, ext_fallback=has_fallback,
+                                   far=sorted(set(names)))
+
+
+def externals_in(j):
+    """names of all external calls in a story JSON document"""
+    out = set()
+
+    def walk(x):
+        if isinstance(x, list):
+            for y in x:
+                walk(y)
+        elif isinstance(x, dict):
+            if "x()" in x and isinstance(x["x()"], str):
+                out.add(x["x()"])
+            for y in x.values():
+                walk(y)
+    walk(j.get("root"))
+    return out
+
+
+def root_named(j):
+    root = j.get("root") or []
+    names = set()
+    if root and isinstance(root[-1], dict):
+        names |= {k for k in root[-1] if not k.startswith("#")}
+    for x in root[:-1]:
+        if isinstance(x, list) and x and isinstance(x[-1], dict) and isinstance(x[-1].get("#n"), str):
+            names.add(x[-1]["#n"])
+    return names
+
+
+def call_paths(j):
+    """for every external call of a story document: (name, kinds of embedding on the way down from the root), a
+    kind being content / named-content (a container with "#n" in its parent's content) / named-only"""
+    out = []
+
+    def walk(c, kinds):
+        term = c[-1] if c and isinstance(c[-1], dict) else None
+        for x in (c[:-1] if c and (c[-1] is None or isinstance(c[-1], dict)) else c):
+            if isinstance(x, list):
+                named = bool(x) and isinstance(x[-1], dict) and isinstance(x[-1].get("#n"), str)
+                walk(x, kinds + ["named-content" if named else "content"])
+            elif isinstance(x, dict) and isinstance(x.get("x()"), str):
+                out.append((x["x()"], tuple(kinds)))
+        if term:
+            for k, v in term.items():
+                if not k.startswith("#") and isinstance(v, list):
+                    walk(v, kinds + ["named-only"])
+    if isinstance(j.get("root"), list):
+        walk(j["root"], [])
+    return out
+
+
+def missing_externals(j, bound, fallbacks):
+    """the specification of validate_external_bindings: names called somewhere in the tree that have no binding
+    and (fallbacks allowed) no root-level container of that name"""
+    fb = root_named(j) if fallbacks else set()
+    return sorted(x for x in externals_in(j) if x not in bound and x not in fb)
+
+
+def bind_op(name, safe=True):
+    return ["BIND", name, safe, {"i": EXT0_VALUE} if name == "far0" else "echo"]
+
+
+def place_setups(rng, info):
+    """host set-ups of one story: (mode, script, bound names, fallbacks allowed)"""
+    far = list(info["far"])
+    out = [("off", [], set(), False), ("on", [["FALLBACKS", True]], set(), True)]
+    extra = [("on-off", [["FALLBACKS", True], ["FALLBACKS", False]], set(), False),
+             ("rebound", [bind_op(f) for f in far] + [["UNBIND", f] for f in far], set(), False),
+             ("other-bound", [bind_op("ext", rng.random() < 0.5)], {"ext"}, False)]
+    if len(far) > 1:
+        keep = rng.choice(far)
+        extra.append(("some-bound", [["FALLBACKS", True]] + [bind_op(f) for f in far if f != keep],
+                      {f for f in far if f != keep}, True))
+    out.append(rng.choice(extra))
+    if info["kind"] != "ast":
+        out.append(("bound", [["FALLBACKS", True]] + [bind_op(f) for f in far], set(far), True))
+    return out
+
+
+ENTRIES = [("explore", 6), ("cont", 1), ("cont-max", 1), ("cont-async", 1), ("cont-sliced", 1)]
+ENTRY_OPS = {"cont": lambda r: [["CONT"], ["CONT"]], "cont-max": lambda r: [["CONT_MAX"], ["CONT"]],
+             "cont-async": lambda r: [["CONT_ASYNC", [r.randint(1, 3)]], ["CONT"]],
+             "cont-sliced": lambda r: [["CONT_SLICED", [r.randint(1, 3), 2]], ["CONT"]]}
+
+# regression corpus of this part (minimised forms of seeded change C12b: the call under a labelled gather that
+# opens the root weave / a knot / a nested weave)
+PLACE_REGRESSION = [
+    "EXTERNAL far(a)\n- (top)\nStart.\n* [on]\n  ~ far(1)\n  Moving.\n  -> top\n* [stop] Bye.\n  -> END\n",
+    "EXTERNAL far(a)\nStart.\n* [on] -> k\n* [stop] Bye.\n  -> END\n=== k ===\n- (loop)\nIn k {far(2)}.\n-> END\n",
+    "EXTERNAL far(a)\nStart.\n* [on] Sub.\n  * * [deeper] Deep.\n  - - (inner)\n  Inner {far(3)}.\n  -> END\n"
+    "* [stop] Bye.\n  -> END\n",
+]
+
+
+def place_cases(rng, n_tmpl, n_ast, n_tree):
+    """-> (cases, meta): every story x place_setups x one entry"""
+    stories = []
+    for i in range(n_tmpl):
+        stories.append((f"w{i}", "ink") + gen_placement(rng))
+    for i in range(n_ast):
+        stories.append((f"a{i}", "ink") + gen_inserted(rng))
+    for i in range(n_tree):
+        stories.append((f"j{i}", "story") + gen_tree(rng))
+    for i, src in enumerate(PLACE_REGRESSION):
+        stories.append((f"wr{i}", "ink", src, dict(kind="tmpl", hosts=["regression"], forms=[], far=["far"])))
+    cases, meta = [], {}
+    for sid, key, src, info in stories:
+        for mode, script, bound, fb in place_setups(rng, info):
+            entry = wchoice(rng, ENTRIES)
+            c = {"id": f"{sid}|{mode}", key: src, "seed": 42, "fuel": 30000, "want_json": True,
+                 "script": script + (ENTRY_OPS[entry](rng) if entry != "explore" else [])}
+            if entry == "explore":
+                c["explore"] = dict(depth=2, max_paths=8)
+            cases.append(c)
+            meta[c["id"]] = dict(sid=sid, mode=mode, bound=sorted(bound), fallbacks=fb, entry=entry, info=info,
+                                 size=len(src))
+    return cases, meta
+
+
+def first_continue(lines):
+    for l in lines:
+        op = hist.split_line(l)[0].strip()
+        if " => " in l and (op == "CONT" or op.startswith('["CONT')):
+            return l
+    return None
+
+
+def check_place(case, m, r, fails, cov):
+    """the first continue fails iff the story document contains a call of an external that is missing"""
+    if r.get("crash") is not None:
+        fails.append(dict(key="panic:unbound-anywhere", case=case, crash=r.get("crash"), size=m["size"])); return
+    if r.get("compile", "none") not in ("ok", "none"):
+        cov["not_compiling"] += m["mode"] == "off"
+        return
+    if r.get("out_of_fuel") or r.get("load") not in (None, "ok"):
+        cov["not_loading"] += 1
+        return
+    lines = r["lines"]
+    bad = next((l for l in lines if " => " in l and ("panic" in res_of(l) or "poisoned" in res_of(l))), None)
+    if bad:
+        fails.append(dict(key="panic:unbound-anywhere", case=case, line=bad.strip(), size=m["size"])); return
+    try:
+        j = json.loads(r.get("json") or "null")
+    except ValueError:
+        return
+    first = first_continue(lines)
+    if not isinstance(j, dict) or first is None:
+        return
+    missing = missing_externals(j, set(m["bound"]), m["fallbacks"])
+    paths = call_paths(j)
+    cov["checked"] += 1
+    if m["mode"] == "off":
+        cov["stories"] += 1
+        kinds = {k for nm, ks in paths if nm in missing for k in ks}
+        cov["stories_call_under_named_content"] += "named-content" in kinds
+        cov["stories_call_under_named_only"] += "named-only" in kinds
+        cov["deepest_call"] = max([cov["deepest_call"]] + [len(ks) for _, ks in paths])
+    failed = res_of(first).startswith("err(")
+    if missing and not failed:
+        fails.append(dict(key="unbound-external-anywhere-not-an-error", case=case, first_continue=first.strip(),
+                          missing=missing, where=[[nm, list(ks)] for nm, ks in paths if nm in missing],
+                          setup=m["mode"], entry=m["entry"], story=m["info"], size=m["size"]))
+    elif missing:
+        cov["first_continue_refused"] += 1
+    elif m["info"]["kind"] != "ast":
+        cov["nothing_missing"] += 1
+        if failed:
+            fails.append(dict(key="bound-externals-reported-missing", case=case, first_continue=first.strip(),
+                              bound=m["bound"], fallbacks=m["fallbacks"], story=m["info"], size=m["size"]))
+
+
 MODES = ("fallback", "safe", "unsafe", "unbound")
 
 
@@ -407,11 +908,40 @@ def run(ctx):
     ctx.rng.shuffle(rest)
     sample = prio + rest[: budget - len(prio)]
     mcases = [dict(c, id="m:" + c["id"]) for c in sample]
+    # ---- where the call stands: an external without binding and fallback anywhere in the content tree
+    # (own generator state, seeded after every draw of the part above: that part's stream is as it was)
+    prng = random.Random(ctx.rng.getrandbits(64))
+    k = 1 if ctx.quick() else 10
+    pcases, pmeta = place_cases(prng, 24 * k, 10 * k, 24 * k)
+    pres = {r["id"]: r for r in vlib.run_inkdrive(pcases, exe)}
+    pcov = collections.Counter(deepest_call=0)
+    pfails = []
+    for c in pcases:
+        r = pres.get(c["id"])
+        if r:
+            check_place(c, pmeta[c["id"]], r, pfails, pcov)
+    pfails.sort(key=lambda f: f.get("size", 0))          # report the smallest story of each class
+    fails += pfails
+    hosts_hist, forms_hist = collections.Counter(), collections.Counter()
+    for cid, m in pmeta.items():
+        if m["mode"] == "off":
+            hosts_hist.update(m["info"]["kind"] + ":" + h for h in m["info"].get("hosts", []))
+            forms_hist.update(m["info"].get("forms", []))
+            forms_hist.update(e for sh in m["info"].get("shapes", []) for e in sh)
+    # correspondence: the unbound runs first (the model walks the whole tree), then the rest
+    pbudget = 45 if ctx.quick() else 450
+    psel = [c for c in pcases if pres.get(c["id"], {}).get("compile", "none") in ("ok", "none")]
+    prng.shuffle(psel)
+    psel.sort(key=lambda c: pmeta[c["id"]]["mode"] == "bound")
+    n_unb = pbudget * 4 // 5
+    psel = [c for c in psel if pmeta[c["id"]]["mode"] != "bound"][:n_unb] + \
+           [c for c in psel if pmeta[c["id"]]["mode"] == "bound"][:pbudget - n_unb]
+    mcases += [dict(c, id="m:" + c["id"]) for c in psel]
     cres = engine.compare(mcases, exe, sw)
     mism = [r for r in cres if r["status"] in ("mismatch", "model-error", "impl-crash")]
     agree = sum(1 for r in cres if r["status"] == "agree")
     ctx.coverage.update(dict(
-        evaluations=len(cases), distinct_nontrivial=n_checked,
+        evaluations=len(cases) + len(pcases), distinct_nontrivial=n_checked + pcov["checked"],
         rule="generated programs, every external call = callee (arity 0/1/2, direct, through an ink function, through "
              "an ink function building a string) x use of the result (printed, operator, native function, condition) x "
              "position (statement, inline, after a line end, after glue, in a tunnel, string expression into global / "
@@ -421,7 +951,14 @@ def run(ctx):
         external_calls_logged=n_calls, call_site_kinds=kinds_hist, distinct_site_combinations=len(combo),
         unsafe_refusals_in_string=n_refusals, programs_not_compiling=n_compile_fail,
         samples=[cases[0]["ink"] if cases else "", cases[-1]["ink"] if cases else ""],
-        traces_validated_against_impl=agree, correspondence_mismatches=len(mism), programs=len(progs)))
+        traces_validated_against_impl=agree, correspondence_mismatches=len(mism), programs=len(progs),
+        unbound_anywhere=dict(
+            rule="stories with an external that has neither binding nor fallback at a random place of the content "
+                 "tree (weave-wrapper programs in root / knot / stitch / function / tunnel / thread, gen_ink programs "
+                 "with an inserted call, story JSON with chains of unnamed / named / named-only containers) x host "
+                 "set-ups x entries; first continue fails iff an external of the compiled story is missing",
+            cases=len(pcases), **{k_: v for k_, v in pcov.items()}, hosts=dict(hosts_hist), forms=dict(forms_hist),
+            in_correspondence=len(psel))))
     seen = set()
     for f in fails:
         if f["key"] in seen:
